@@ -344,6 +344,10 @@ class Approx:
         return 'Approx(%r)' % (self.value,)
 
 
+class Painted(list):
+    """A matrix cell coloured by a stage (as opposed to the default fill)."""
+
+
 class _BreakEx(Exception):
     pass
 
@@ -502,6 +506,7 @@ class Interp:
         self.steps = 0
         self.max_steps = max_steps
         self.matrix = None        # (light, h, w, cells) while inside a matrix block
+        self.inline_tiles = set() # indices of tile events produced by the one-line row/column form
 
     def ev(self, *e):
         self.trace.append(e)
@@ -816,6 +821,8 @@ class Interp:
         for r in range(h):
             for c in range(w):
                 out.append(cells.get((r, c), default))
+        if spec[0] == 'inline':
+            self.inline_tiles.add(len(self.trace))
         self.ev('tile', name, out, dur, w, h)
 
     def paint(self, rows, cols):
@@ -838,7 +845,7 @@ class Interp:
         else:
             c1 = self.ex(cols[0])
             c2 = c1 if cols[1] is None else self.ex(cols[1])
-        color = spec_raw_color(self.mode, self.cur_color())
+        color = Painted(spec_raw_color(self.mode, self.cur_color()))
         for r in range(h):
             for c in range(w):
                 if r1 <= r and r <= r2 and c1 <= c and c <= c2:
